@@ -4,7 +4,7 @@ ENTRY = dict(
     title="Arbitrary line noise causes only protocol errors and bounded loss",
     design_ref="DESIGN.md section 6 / C14",
     prop_modules=["C14", "C14Chunks", "C14History", "TieFrame", "TieReader", "TieChunks"],
-    technique="Lean 4 theorems over all byte strings (progress, bounded demand, re-synchronisation by induction on the noise) + refutation witness for finding F2 + correspondence on noise corpora incl. a real AsyncProtocol producer",
+    technique="Lean 4 theorems over all byte strings (progress, bounded demand, re-synchronisation by induction on the noise) + refutation witness for finding F2 + correspondence on noise corpora incl. a real AsyncProtocol producer + code tie (TieReader.read_eq) + demand bound in every suspension of the resumable reader machine (C14Chunks) + readers / connections with history in fresh processes (C14History, harness/history.py)",
     level_text=(
         "Proof over ALL byte strings: `C14.outcomes`, `C14.connLost_iff`, `C14.progress` (>= 1 byte per call, remainder is a suffix), "
         "`C14.bounded_consumption` (<= 1000 bytes from the delimiter), `C14.never_waits_beyond_max` + `C14.decided_by_consumed`, "
